@@ -263,6 +263,9 @@ pub struct Sys {
     pub pending_notifs: BTreeSet<(usize, String)>,
     /// per child: contents of the input files when it was spawned
     pub spawn_inputs: BTreeMap<usize, Vec<(usize, String)>>,
+    /// per target: the input files that existed when its watching began (only those are watched, as with
+    /// the real watcher, which skips paths that do not exist yet)
+    pub watched: BTreeMap<String, BTreeSet<usize>>,
     pub scratch: Option<std::path::PathBuf>,
     pub polls: u64,
     /// number of events logged when the system was last message-quiescent (nothing queued, nothing in flight)
@@ -396,6 +399,7 @@ impl Sys {
             file_version: vec![0; nfiles],
             pending_notifs: BTreeSet::new(),
             spawn_inputs: BTreeMap::new(),
+            watched: BTreeMap::new(),
             scratch,
             polls: 0,
             quiescent_at: 0,
@@ -504,7 +508,10 @@ impl Sys {
                 waited = 0;
                 continue;
             }
-            let internal = {
+            // internal I/O only exists when the real incremental runner is in use; in scheduling-only runs a
+            // build future that is pending on anything but its child is *waiting for something else*
+            // (e.g. a lock another build holds) and the exploration simply goes on
+            let internal = self.cfg.real_incremental && {
                 let i = self.w.inner.lock().unwrap();
                 i.busy.iter().any(|a| {
                     self.task_alive(a)
@@ -534,7 +541,7 @@ impl Sys {
         self.task_alive(a)
             && !i.send_gate.contains_key(a)
             && !i.sending.contains(a)
-            && (!i.busy.contains(a) || i.at_point.contains_key(a) || Self::child_waiting(i, a))
+            && (!self.cfg.real_incremental || !i.busy.contains(a) || i.at_point.contains_key(a) || Self::child_waiting(i, a))
     }
 
     fn run_returned(&self) -> bool {
@@ -682,7 +689,7 @@ impl Sys {
                     denotes = true;
                 }
             }
-            if denotes {
+            if denotes && self.watched.get(&t.name).map(|w| w.contains(&f)).unwrap_or(false) {
                 v.push(t.name.clone());
             }
         }
@@ -806,6 +813,15 @@ impl Sys {
             }
         }
         self.snapshotted_spawns = self.w.inner.lock().unwrap().children.len();
+        if self.cfg.real_incremental {
+            let registered: Vec<String> = self.w.inner.lock().unwrap().notifiers.keys().cloned().collect();
+            for t in registered {
+                if !self.watched.contains_key(&t) {
+                    let existing: BTreeSet<usize> = self.effective_inputs(&t).into_iter().filter(|f| self.file_path(*f).exists()).collect();
+                    self.watched.insert(t, existing);
+                }
+            }
+        }
         if self.message_quiescent() {
             self.quiescent_at = self.events_len();
         }
@@ -892,7 +908,7 @@ impl Sys {
             let c = c.lock().unwrap();
             write!(s, "{}:{:?}:{}:{};", c.info.target, c.info.status, c.info.killed, c.info.reaped).unwrap();
         }
-        write!(s, "|{}|{}|{:?}|{:?}", self.notify_left, self.change_left, self.file_version, self.pending_notifs).unwrap();
+        write!(s, "|{}|{}|{:?}|{:?}|{:?}", self.notify_left, self.change_left, self.file_version, self.pending_notifs, self.watched).unwrap();
         let alive: Vec<&str> = self.tasks.iter().filter(|t| t.fut.is_some()).map(|t| t.name.as_str()).collect();
         write!(s, "|{:?}", alive).unwrap();
         let mut h1 = std::collections::hash_map::DefaultHasher::new();
